@@ -21,7 +21,7 @@ import (
 func main() {
 	hk.InstallHook()
 	installSwapObservers()
-	hk.Rule("directed (D/R): victim (act.Actor, trapping act.Actor, raw behaviour, meta process) x position (asleep, parked in a handler that then returns nil/error/panics, blocked in Call, parked by a yield-point gate at run.enter/tosleep/recheck/reacquire/term.err/term.kill/term.panic, a Kill parked at kill.zombie/kill.term, meta tosleep/recheck/reacquire/term/start.term, already terminated) x ordered action sequence over {handler error, panic, Kill, Kill twice, two concurrent Kills, exit from parent, exit from a non-parent, parent terminates, Start() returns nil/error, SendExitMeta}; R = seeded random sequences of 2..4 actions. storm (S): 40..200 victims, seeded causes and traffic from 4..16 goroutines under seeded delays at the yield points. node-stop (N): own node, victims asleep or parked in handlers, Stop racing Kill/error/panic. A case is non-trivial iff the position was really reached (gate fired) and at least two terminating causes had been issued before the first swap of the state word to Terminated completed (measured from the yield points proc.unreg.deleted / meta.term / meta.start.term and the logical clock at issue time); storms: iff at least one victim had that. distinct = kind x position x action sequence (directed), parameter class x contested (storm, node-stop). table (T) cases are single causes and never count as non-trivial")
+	hk.Rule("directed (D/R): victim (act.Actor, trapping act.Actor, raw behaviour, meta process) x position (asleep, parked in a handler that then returns nil/error/panics, blocked in Call, parked by a yield-point gate at run.enter/tosleep/recheck/reacquire/term.err/term.kill/term.panic, a Kill parked at kill.zombie/kill.term, meta tosleep/recheck/reacquire/term/start.term, already terminated) x ordered action sequence over {handler error, panic, Kill, Kill twice, two concurrent Kills, exit from parent, exit from a non-parent, parent terminates, Start() returns nil/error, SendExitMeta}; R = seeded random sequences of 2..4 actions. storm (S): 40..200 victims, seeded causes and traffic from 4..16 goroutines under seeded delays at the yield points. node-stop (N): own node, victims asleep or parked in handlers, Stop racing Kill/error/panic. supervisor-pool (B): act.Supervisor (one-for-one, all-for-one, rest-for-one; temporary children) and act.Pool with three children/workers, idle or with one child parked in a handler, x cause sequences on the supervisor/pool; the children are judged too. A case is non-trivial iff the position was really reached (gate fired) and at least two terminating causes had been issued before the first swap of the state word to Terminated completed (measured from the yield points proc.unreg.deleted / meta.term / meta.start.term and the logical clock at issue time); storms: iff at least one victim had that. distinct = kind x position x action sequence (directed), parameter class x contested (storm, node-stop). table (T) cases are single causes and never count as non-trivial")
 	hk.Assume("the instrumented behaviours (act.Actor, raw gen.ProcessBehavior, gen.MetaBehavior) are representative: all behaviours share node/process.go run(), node.Kill and node/meta.go")
 	hk.Assume("meta Start() is the main loop, concurrent to the handlers by design; it is not a callback and may still be running after Terminate")
 	hk.Assume("a process counts as 'ended' when the node no longer knows its PID (meta: its alias); observers' notifications are pushed before the terminate callback starts, so they are counted once the observers are idle")
@@ -41,7 +41,7 @@ func main() {
 	for _, kind := range []string{"actor", "trap", "raw"} {
 		whats := []string{"errw", "normal", "fexit3"}
 		if kind != "raw" {
-			whats = append(whats, "call-err", "call-panic", "linkexit")
+			whats = append(whats, "call-err", "call-panic", "linkexit", "event-err", "event-panic")
 		}
 		for _, w := range whats {
 			runTable(kind, w)
@@ -56,16 +56,16 @@ func main() {
 	for _, c := range behaviourCases() {
 		runBehaviour(c, "supervisor-pool")
 	}
-	for _, c := range randomProcCases(hk.Pick(150, 4000)) {
+	for _, c := range randomProcCases(hk.Pick(150, 10000)) {
 		runProc(c, "random-directed")
 	}
-	for _, c := range randomMetaCases(hk.Pick(40, 1000)) {
+	for _, c := range randomMetaCases(hk.Pick(40, 2500)) {
 		runMeta(c, "random-directed-meta")
 	}
-	for k := 0; k < hk.Pick(40, 600); k++ {
+	for k := 0; k < hk.Pick(40, 1500); k++ {
 		runStorm(k)
 	}
-	for k := 0; k < hk.Pick(6, 80); k++ {
+	for k := 0; k < hk.Pick(6, 200); k++ {
 		runStop(k)
 	}
 
